@@ -95,26 +95,349 @@ Proof.
   unfold child, lookup_link; intros. destruct (obj_at w f g); eauto. discriminate.
 Qed.
 
-Lemma ds_at_put_other : forall w f t n d a ls t' n',
-  obj_at w f t = Some (Group a ls) -> (t' <> t \/ n' <> n) -> (exists x, obj_at w f t' = Some x) ->
-  (forall o, lookup_link w f t' n' = Some (Hard o) -> o <> t) ->
-  ds_at (put_ds w f t n d) f t' n' = ds_at w f t' n'.
+Lemma lookup_obj : forall w f t n l, lookup_link w f t n = Some l -> exists x, obj_at w f t = Some x.
+Proof. unfold lookup_link; intros. destruct (obj_at w f t); eauto. discriminate. Qed.
+
+(** a column that could be read before, other than the rewritten one, reads the same afterwards
+    (same dataset object, same payload) *)
+Lemma ds_at_put_kept : forall w f t n d a ls t' n' x,
+  obj_at w f t = Some (Group a ls) -> (t' <> t \/ n' <> n) ->
+  ds_at w f t' n' = Some x -> ds_at (put_ds w f t n d) f t' n' = Some x.
 Proof.
-  intros w f t n d a ls t' n' Et Hne Hx Hnot. unfold ds_at, child.
-  erewrite put_ds_lookup_other; eauto.
-  destruct (lookup_link w f t' n') as [[o| |]|] eqn:El; auto.
-  destruct (obj_at w f o) as [y|] eqn:Eo.
-  - erewrite put_ds_obj_other; eauto. rewrite Eo; auto.
-  - (* a hard link to nothing: the new dataset could sit there only if o = length st *)
-    unfold obj_at in *. destruct (get_store w f) as [st|] eqn:Es; try discriminate.
-    erewrite put_ds_store by eauto.
-    destruct (Nat.eq_dec o t) as [->|N]; [exfalso; eapply Hnot; eauto|].
-    rewrite nth_error_upd_other by auto.
-    destruct (Nat.eq_dec o (List.length st)) as [->|N2].
-    + rewrite nth_error_app2 by lia. rewrite Nat.sub_diag. simpl.
-      (* reading a dangling hard link before gives None; afterwards a dataset: exclude by hypothesis below *)
-      admit_free_marker.
-    + assert (nth_error (st ++ [Dataset d]) o = None) as ->; auto.
-      apply nth_error_None. rewrite app_length; simpl.
-      apply nth_error_None in Eo. lia.
-Abort.
+  intros w f t n d a ls t' n' x Et Hne H. unfold ds_at, child in *.
+  destruct (lookup_link w f t' n') as [[o| |]|] eqn:El; try discriminate.
+  erewrite put_ds_lookup_other; eauto using lookup_obj. rewrite El.
+  destruct (obj_at w f o) as [[|y]|] eqn:Eo; try discriminate.
+  erewrite put_ds_dataset_kept; eauto.
+Qed.
+
+Lemma child_put_kept : forall w f t n d a ls t' n' o,
+  obj_at w f t = Some (Group a ls) -> (t' <> t \/ n' <> n) ->
+  child w f t' n' = Some o -> child (put_ds w f t n d) f t' n' = Some o.
+Proof.
+  intros w f t n d a ls t' n' o Et Hne H. unfold child in *.
+  destruct (lookup_link w f t' n') as [[o'| |]|] eqn:El; try discriminate.
+  erewrite put_ds_lookup_other; eauto using lookup_obj. now rewrite El.
+Qed.
+
+Lemma put_ds_group_kept : forall w f t n d a ls t',
+  obj_at w f t = Some (Group a ls) -> (exists a' ls', obj_at w f t' = Some (Group a' ls')) ->
+  exists a' ls', obj_at (put_ds w f t n d) f t' = Some (Group a' ls').
+Proof.
+  intros w f t n d a ls t' Et (a' & ls' & E').
+  destruct (Nat.eq_dec t' t) as [->|N].
+  - unfold obj_at in Et. destruct (get_store w f) as [st|] eqn:Es; try discriminate.
+    destruct (put_ds_obj_self w f t n d a ls st Es Et) as [H1 _]. eauto.
+  - erewrite put_ds_obj_other; eauto.
+Qed.
+
+Lemma shape_chromnames : forall w f g tc tb names, shape w f g tc tb names -> chromnames w f g = names.
+Proof. intros w f g tc tb names H. unfold chromnames. now rewrite (sh_chroms _ _ _ _ _ _ H), (sh_names _ _ _ _ _ _ H). Qed.
+
+Lemma shape_put_name : forall w f g tc tb names new,
+  shape w f g tc tb names -> shape (put_ds w f tc "name"%string (PStrs new)) f g tc tb new.
+Proof.
+  intros w f g tc tb names new H. destruct H.
+  destruct sh_tc0 as (a & ls & Etc).
+  constructor; auto.
+  - eapply child_put_kept; eauto.
+  - eapply child_put_kept; eauto.
+  - eapply put_ds_group_kept; eauto.
+  - eapply put_ds_group_kept; eauto.
+  - eapply put_ds_read; eauto.
+  - destruct sh_codes0 as (d & Ed & Hd). exists d. split; auto. eapply ds_at_put_kept; eauto.
+Qed.
+
+Lemma shape_put_chrom : forall w f g tc tb names d,
+  shape w f g tc tb names -> (forall l, d <> PStrs l) ->
+  shape (put_ds w f tb "chrom"%string d) f g tc tb names.
+Proof.
+  intros w f g tc tb names d H Hd. destruct H.
+  destruct sh_tb0 as (a & ls & Etb).
+  constructor; auto.
+  - eapply child_put_kept; eauto.
+  - eapply child_put_kept; eauto.
+  - eapply put_ds_group_kept; eauto.
+  - eapply put_ds_group_kept; eauto.
+  - eapply ds_at_put_kept; eauto.
+  - exists d. split; auto. eapply put_ds_read; eauto.
+Qed.
+
+(** what _rename_chroms does, step by step *)
+Lemma rename_unfold : forall w f g tc tb names m w',
+  shape w f g tc tb names -> rename_chroms w f g m = Some w' ->
+  let new := map (subst m) names in
+  let w1 := put_ds w f tc "name"%string (PStrs new) in
+  (exists hdr codes, ds_at w f tb "chrom"%string = Some (PEnum hdr codes) /\
+                     w' = put_ds w1 f tb "chrom"%string (PEnum new codes)) \/
+  ((forall hdr codes, ds_at w f tb "chrom"%string <> Some (PEnum hdr codes)) /\ w' = w1).
+Proof.
+  intros w f g tc tb names m w' H R new w1. unfold rename_chroms in R.
+  rewrite (sh_chroms _ _ _ _ _ _ H), (sh_bins _ _ _ _ _ _ H), (sh_names _ _ _ _ _ _ H) in R.
+  fold new in R. fold w1 in R.
+  destruct (sh_codes _ _ _ _ _ _ H) as (d & Ed & Hd).
+  destruct (sh_tc _ _ _ _ _ _ H) as (a & ls & Etc).
+  assert (ds_at w1 f tb "chrom"%string = Some d) as E1.
+  { eapply ds_at_put_kept; eauto. left. apply not_eq_sym. exact (sh_ne3 _ _ _ _ _ _ H). }
+  rewrite E1 in R. rewrite Ed.
+  destruct d; inversion R; subst.
+  - right. split; auto. intros; discriminate.
+  - exfalso. eapply Hd; eauto.
+  - left. eauto.
+Qed.
+
+(** C18 central theorem: names are substituted in the original order and the collection keeps its shape *)
+Theorem rename_names : forall w f g tc tb names m w',
+  shape w f g tc tb names -> rename_chroms w f g m = Some w' ->
+  shape w' f g tc tb (map (subst m) names) /\ chromnames w' f g = map (subst m) (chromnames w f g).
+Proof.
+  intros w f g tc tb names m w' H R.
+  assert (shape w' f g tc tb (map (subst m) names)) as H'.
+  { destruct (rename_unfold _ _ _ _ _ _ _ _ H R) as [(hdr & codes & _ & ->)|[_ ->]].
+    - apply shape_put_chrom; [apply shape_put_name with (names := names); auto|intros; discriminate].
+    - apply shape_put_name with (names := names); auto. }
+  split; auto. rewrite (shape_chromnames _ _ _ _ _ _ H'), (shape_chromnames _ _ _ _ _ _ H). auto.
+Qed.
+
+(** frame: every column that could be read, other than chroms/name and bins/chrom, is the same dataset
+    with the same payload afterwards (lengths, starts, ends, extra columns, pixels, indexes) *)
+Theorem rename_frame : forall w f g tc tb names m w' t col x,
+  shape w f g tc tb names -> rename_chroms w f g m = Some w' ->
+  ~ (t = tc /\ col = "name"%string) -> ~ (t = tb /\ col = "chrom"%string) ->
+  ds_at w f t col = Some x -> ds_at w' f t col = Some x.
+Proof.
+  intros w f g tc tb names m w' t col x H R N1 N2 Hx.
+  destruct (sh_tc _ _ _ _ _ _ H) as (a & ls & Etc).
+  assert (t <> tc \/ col <> "name"%string) as D1.
+  { destruct (Nat.eq_dec t tc); [right; intro; apply N1; auto|left; auto]. }
+  assert (t <> tb \/ col <> "chrom"%string) as D2.
+  { destruct (Nat.eq_dec t tb); [right; intro; apply N2; auto|left; auto]. }
+  pose proof (ds_at_put_kept w f tc "name"%string (PStrs (map (subst m) names)) a ls t col x Etc D1 Hx) as K1.
+  destruct (rename_unfold _ _ _ _ _ _ _ _ H R) as [(hdr & codes & _ & ->)|[_ ->]]; auto.
+  destruct (sh_tb _ _ _ _ _ _ (shape_put_name _ _ _ _ _ _ (map (subst m) names) H)) as (a2 & ls2 & Etb).
+  eapply ds_at_put_kept; eauto.
+Qed.
+
+(** the tables of the collection are the same objects as before *)
+Theorem rename_tables_kept : forall w f g tc tb names m w' tbl o,
+  shape w f g tc tb names -> rename_chroms w f g m = Some w' ->
+  child w f g tbl = Some o -> child w' f g tbl = Some o.
+Proof.
+  intros w f g tc tb names m w' tbl o H R Hc.
+  destruct (sh_tc _ _ _ _ _ _ H) as (a & ls & Etc).
+  assert (child (put_ds w f tc "name"%string (PStrs (map (subst m) names))) f g tbl = Some o) as K1.
+  { eapply child_put_kept; eauto. left. apply not_eq_sym. exact (sh_ne1 _ _ _ _ _ _ H). }
+  destruct (rename_unfold _ _ _ _ _ _ _ _ H R) as [(hdr & codes & _ & ->)|[_ ->]]; auto.
+  destruct (sh_tb _ _ _ _ _ _ (shape_put_name _ _ _ _ _ _ (map (subst m) names) H)) as (a2 & ls2 & Etb).
+  eapply child_put_kept; eauto. left. apply not_eq_sym. exact (sh_ne2 _ _ _ _ _ _ H).
+Qed.
+
+Corollary rename_column_kept : forall w f g tc tb names m w' tbl col x,
+  shape w f g tc tb names -> rename_chroms w f g m = Some w' ->
+  (tbl, col) <> ("chroms"%string, "name"%string) -> (tbl, col) <> ("bins"%string, "chrom"%string) ->
+  (forall t, child w f g tbl = Some t -> (t = tc -> tbl = "chroms"%string) /\ (t = tb -> tbl = "bins"%string)) ->
+  column w f g tbl col = Some x -> column w' f g tbl col = Some x.
+Proof.
+  intros w f g tc tb names m w' tbl col x H R N1 N2 Hinj Hx. unfold column in *.
+  destruct (child w f g tbl) as [t|] eqn:Ec; try discriminate.
+  rewrite (rename_tables_kept _ _ _ _ _ _ _ _ _ _ H R Ec).
+  destruct (Hinj t eq_refl) as [I1 I2].
+  eapply rename_frame; eauto.
+  - intros [-> ->]. apply N1. now rewrite I1.
+  - intros [-> ->]. apply N2. now rewrite I2.
+Qed.
+
+(** bin codes are kept, the enum header becomes the new names *)
+Theorem rename_codes : forall w f g tc tb names m w',
+  shape w f g tc tb names -> rename_chroms w f g m = Some w' ->
+  bin_codes w' f g = bin_codes w f g /\
+  (forall hdr codes, ds_at w f tb "chrom"%string = Some (PEnum hdr codes) ->
+                     ds_at w' f tb "chrom"%string = Some (PEnum (map (subst m) names) codes)) /\
+  (forall codes, ds_at w f tb "chrom"%string = Some (PInts codes) ->
+                 ds_at w' f tb "chrom"%string = Some (PInts codes)).
+Proof.
+  intros w f g tc tb names m w' H R.
+  destruct (rename_names _ _ _ _ _ _ _ _ H R) as [H' _].
+  unfold bin_codes. rewrite (sh_bins _ _ _ _ _ _ H), (sh_bins _ _ _ _ _ _ H').
+  destruct (sh_tc _ _ _ _ _ _ H) as (a & ls & Etc).
+  destruct (rename_unfold _ _ _ _ _ _ _ _ H R) as [(hdr & codes & Ed & ->)|[Hno ->]].
+  - destruct (sh_tb _ _ _ _ _ _ (shape_put_name _ _ _ _ _ _ (map (subst m) names) H)) as (a2 & ls2 & Etb).
+    rewrite (put_ds_read _ _ _ _ _ _ _ Etb). rewrite Ed. simpl. split; auto. split.
+    + intros hdr' codes' E'. congruence.
+    + intros codes' E'. congruence.
+  - assert (forall d, ds_at w f tb "chrom"%string = Some d ->
+                      ds_at (put_ds w f tc "name"%string (PStrs (map (subst m) names))) f tb "chrom"%string = Some d) as K.
+    { intros d Ed. eapply ds_at_put_kept; eauto. left. apply not_eq_sym. exact (sh_ne3 _ _ _ _ _ _ H). }
+    destruct (sh_codes _ _ _ _ _ _ H) as (d & Ed & _). rewrite (K _ Ed), Ed. split; auto. split.
+    + intros hdr codes E'. exfalso. injection E' as ->. eapply Hno; eauto.
+    + intros codes E'. auto.
+Qed.
+
+(* ------------------------------------------------------------------ lookups by name *)
+Lemma chromid_from_none : forall names i x, ~ In x names -> chromid_from names i x = None.
+Proof.
+  induction names as [|n r IH]; simpl; intros i x Hn; auto.
+  rewrite IH by tauto. destruct (S.eqb n x) eqn:E; auto. apply S.eqb_eq in E. tauto.
+Qed.
+
+Lemma chromid_from_some : forall names i x, In x names -> chromid_from names i x <> None.
+Proof.
+  induction names as [|n r IH]; simpl; intros i x Hin; [tauto|].
+  destruct (chromid_from r (i + 1) x) eqn:E; [discriminate|].
+  destruct Hin as [->|Hin]; [rewrite S.eqb_refl; discriminate|].
+  exfalso. eapply IH; eauto.
+Qed.
+
+(** dict(zip(new_names, range(n)))[s x] = dict(zip(names, range(n)))[x] when the new names are distinct *)
+Lemma chromid_from_subst : forall (s : string -> string) names i x,
+  NoDup (map s names) -> In x names ->
+  chromid_from (map s names) i (s x) = chromid_from names i x.
+Proof.
+  induction names as [|n r IH]; simpl; intros i x Hnd Hin; [tauto|].
+  inversion Hnd as [|? ? Hnot Hnd']; subst.
+  destruct (in_dec S.string_dec x r) as [Hr|Hr].
+  - rewrite IH by auto. destruct (chromid_from r (i + 1) x) eqn:E; auto.
+    exfalso. eapply chromid_from_some; eauto.
+  - destruct Hin as [->|Hin]; [|tauto].
+    rewrite (chromid_from_none r (i + 1) x Hr).
+    rewrite chromid_from_none by exact Hnot.
+    now rewrite !S.eqb_refl.
+Qed.
+
+Theorem rename_chromid : forall m names x,
+  NoDup (map (subst m) names) -> In x names ->
+  chromid (map (subst m) names) (subst m x) = chromid names x.
+Proof. intros. unfold chromid. now apply chromid_from_subst. Qed.
+
+(** Cooler.extent by the new name = extent by the old name before *)
+Theorem rename_extent : forall w f g tc tb names m w' x,
+  shape w f g tc tb names -> rename_chroms w f g m = Some w' ->
+  NoDup (map (subst m) names) -> In x names ->
+  (forall ti, child w f g "indexes"%string = Some ti -> ti <> tc /\ ti <> tb) ->
+  (forall ti, child w f g "indexes"%string = Some ti -> exists d, ds_at w f ti "chrom_offset"%string = Some d) ->
+  extent w' f g (subst m x) = extent w f g x.
+Proof.
+  intros w f g tc tb names m w' x H R Hnd Hin Hti Hoff.
+  destruct (rename_names _ _ _ _ _ _ _ _ H R) as [H' Hn].
+  unfold extent. rewrite Hn, (shape_chromnames _ _ _ _ _ _ H).
+  rewrite rename_chromid by auto.
+  destruct (chromid names x); auto.
+  destruct (child w f g "indexes"%string) as [ti|] eqn:Ei.
+  - rewrite (rename_tables_kept _ _ _ _ _ _ _ _ _ _ H R Ei).
+    destruct (Hoff ti eq_refl) as (d & Ed). destruct (Hti ti eq_refl) as [N1 N2].
+    rewrite (rename_frame _ _ _ _ _ _ _ _ ti "chrom_offset"%string d H R) by (auto; intros [? ?]; congruence).
+    now rewrite Ed.
+  - (* no indexes table before: none afterwards either (links of g are untouched) *)
+    destruct (child w' f g "indexes"%string) as [ti'|] eqn:Ei'; auto.
+    exfalso. clear Hti Hoff.
+    destruct (sh_tc _ _ _ _ _ _ H) as (a & ls & Etc).
+    unfold child in Ei, Ei'.
+    assert (lookup_link w' f g "indexes"%string = lookup_link w f g "indexes"%string) as K.
+    { destruct (child_obj _ _ _ _ _ (sh_chroms _ _ _ _ _ _ H)) as (xg & Exg).
+      destruct (rename_unfold _ _ _ _ _ _ _ _ H R) as [(hdr & codes & _ & ->)|[_ ->]].
+      - destruct (sh_tb _ _ _ _ _ _ (shape_put_name _ _ _ _ _ _ (map (subst m) names) H)) as (a2 & ls2 & Etb).
+        erewrite put_ds_lookup_other; eauto.
+        + erewrite put_ds_lookup_other; eauto. left. apply not_eq_sym. exact (sh_ne1 _ _ _ _ _ _ H).
+        + left. apply not_eq_sym. exact (sh_ne2 _ _ _ _ _ _ H).
+        + destruct (child_obj _ _ _ _ _ (sh_chroms _ _ _ _ _ _ (shape_put_name _ _ _ _ _ _ (map (subst m) names) H))); eauto.
+      - erewrite put_ds_lookup_other; eauto. left. apply not_eq_sym. exact (sh_ne1 _ _ _ _ _ _ H). }
+    rewrite K in Ei'. destruct (lookup_link w f g "indexes"%string) as [[?| |]|]; discriminate.
+Qed.
+
+(** bin labels (api.bins()["chrom"]): substituted, for both encodings, when the stored codes are valid
+    and (enum encoding) the header listed the names *)
+Lemma nth_name_map : forall s names c, 0 <= c < Z.of_nat (List.length names) ->
+  nth_name (map s names) c = s (nth_name names c).
+Proof.
+  intros s names c Hc. unfold nth_name.
+  rewrite nth_indep with (d' := s ""%string) by (rewrite map_length; lia).
+  apply map_nth.
+Qed.
+
+Theorem rename_labels : forall w f g tc tb names m w',
+  shape w f g tc tb names -> rename_chroms w f g m = Some w' ->
+  Forall (fun c => 0 <= c < Z.of_nat (List.length names)) (bin_codes w f g) ->
+  (forall hdr codes, ds_at w f tb "chrom"%string = Some (PEnum hdr codes) -> hdr = names) ->
+  bin_labels w' f g = map (subst m) (bin_labels w f g).
+Proof.
+  intros w f g tc tb names m w' H R Hrange Hhdr.
+  destruct (rename_names _ _ _ _ _ _ _ _ H R) as [H' Hn].
+  destruct (rename_codes _ _ _ _ _ _ _ _ H R) as (_ & Kenum & Kint).
+  unfold bin_labels. unfold bin_codes in Hrange.
+  rewrite (sh_bins _ _ _ _ _ _ H) in *. rewrite (sh_bins _ _ _ _ _ _ H').
+  destruct (sh_codes _ _ _ _ _ _ H) as (d & Ed & Hd). rewrite Ed in *.
+  destruct d as [codes|l|hdr codes].
+  - rewrite (Kint _ eq_refl). rewrite Hn, (shape_chromnames _ _ _ _ _ _ H). simpl in Hrange.
+    rewrite map_map. apply map_ext_in. intros c Hc. rewrite Forall_forall in Hrange.
+    apply nth_name_map; auto.
+  - exfalso. eapply Hd; eauto.
+  - rewrite (Kenum _ _ eq_refl). rewrite (Hhdr _ _ eq_refl). simpl in Hrange.
+    rewrite map_map. apply map_ext_in. intros c Hc. rewrite Forall_forall in Hrange.
+    apply nth_name_map; auto.
+Qed.
+
+(** chains of renamings compose: the names are substituted map after map *)
+Theorem rename_chain_names : forall ms w f g tc tb names w',
+  shape w f g tc tb names -> rename_chain w f g ms = Some w' ->
+  let final := fold_left (fun ns m => map (subst m) ns) ms names in
+  shape w' f g tc tb final /\ chromnames w' f g = final.
+Proof.
+  induction ms as [|m r IH]; simpl; intros w f g tc tb names w' H R.
+  - inversion R; subst. split; auto. eapply shape_chromnames; eauto.
+  - destruct (rename_chroms w f g m) as [w1|] eqn:E1; try discriminate.
+    destruct (rename_names _ _ _ _ _ _ _ _ H E1) as [H1 _].
+    eapply IH; eauto.
+Qed.
+
+Corollary rename_twice : forall w f g tc tb names m1 m2 w1 w2,
+  shape w f g tc tb names -> rename_chroms w f g m1 = Some w1 -> rename_chroms w1 f g m2 = Some w2 ->
+  chromnames w2 f g = map (fun x => subst m2 (subst m1 x)) names.
+Proof.
+  intros w f g tc tb names m1 m2 w1 w2 H R1 R2.
+  destruct (rename_chain_names [m1; m2] w f g tc tb names w2 H) as [_ K].
+  - simpl. now rewrite R1, R2.
+  - rewrite K. simpl. apply map_map.
+Qed.
+
+(* ------------------------------------------------------------------ witnesses *)
+Definition spec18 : cspec :=
+  mkSpec [("chroms"%string, Table [("name"%string, Fresh (PStrs ["chr1"; "chr2"; "chrX"]%string));
+                                   ("length"%string, Fresh (PInts [25; 20; 7]))]);
+          ("bins"%string, Table [("chrom"%string, Fresh (PEnum ["chr1"; "chr2"; "chrX"]%string [0; 0; 0; 1; 1; 2]));
+                                 ("start"%string, Fresh (PInts [0; 10; 20; 0; 10; 0]));
+                                 ("end"%string, Fresh (PInts [10; 20; 25; 10; 20; 7]))]);
+          ("pixels"%string, Table [("bin1_id"%string, Fresh (PInts [0; 1])); ("bin2_id"%string, Fresh (PInts [4; 2]));
+                                   ("count"%string, Fresh (PInts [1; 5]))]);
+          ("indexes"%string, Table [("chrom_offset"%string, Fresh (PInts [0; 3; 5; 6]));
+                                    ("bin1_offset"%string, Fresh (PInts [0; 1; 2; 2; 2; 2; 2]))])]
+         [("format"%string, AStr MAGIC)].
+Definition w18 : world := snd (create world0 FA [] false spec18).
+Definition swap12 : list (string * string) := [("chr1", "chr2"); ("chr2", "chr1")]%string.
+
+Lemma ex_shape18 : shape w18 FA 0 1 4 ["chr1"; "chr2"; "chrX"]%string.
+Proof.
+  constructor; try (vm_compute; reflexivity); try (vm_compute; discriminate).
+  - vm_compute. eauto.
+  - vm_compute. eauto.
+  - eexists. split; [vm_compute; reflexivity|]. intros; discriminate.
+Qed.
+
+(** a swap is a simultaneous substitution; looking up the new name gives the old extent *)
+Lemma ex_swap18 :
+  match rename_chroms w18 FA 0 swap12 with
+  | Some w' => chromnames w' FA 0 = ["chr2"; "chr1"; "chrX"]%string /\
+               bin_labels w' FA 0 = ["chr2"; "chr2"; "chr2"; "chr1"; "chr1"; "chrX"]%string /\
+               extent w' FA 0 "chr2"%string = Some (0, 3) /\ extent w18 FA 0 "chr1"%string = Some (0, 3) /\
+               column w' FA 0 "pixels"%string "count"%string = Some (PInts [1; 5])
+  | None => False
+  end.
+Proof. vm_compute. repeat split; reflexivity. Qed.
+
+(** outside the claimed domain: a map that produces a duplicate name makes the lookup by name ambiguous *)
+Lemma rename_duplicate_refuted :
+  match rename_chroms w18 FA 0 [("chr1", "chr2")]%string with
+  | Some w' => chromnames w' FA 0 = ["chr2"; "chr2"; "chrX"]%string /\
+               extent w' FA 0 "chr2"%string = Some (3, 5) /\ extent w18 FA 0 "chr1"%string = Some (0, 3)
+  | None => False
+  end.
+Proof. vm_compute. repeat split; reflexivity. Qed.
